@@ -19,6 +19,9 @@ use std::{
 
 use crate::cli::CompilationTargets;
 
+/// The stack, in bytes, of the thread that `mscript compile` runs the compiler on. 256 MB
+const COMPILER_STACK_SIZE: usize = 256 * 1024 * 1024;
+
 fn compile(
     path_str: &str,
     output_bin: bool,
@@ -300,7 +303,22 @@ fn main() -> Result<()> {
             };
 
             let output_bin = matches!(output_format, CompilationTargets::Binary);
-            compile(&path, output_bin, !quick, true, false)?;
+
+            // the front end recurses once per nesting level of the source (and once per operand of an
+            // operator chain): it gets a stack that a source file of a sane size cannot exhaust
+            let builder = thread::Builder::new()
+                .name("mscript-compiler".into())
+                .stack_size(COMPILER_STACK_SIZE);
+
+            let compiler_thread = builder.spawn(move || -> Result<()> {
+                compile(&path, output_bin, !quick, true, false)?;
+                Ok(())
+            })?;
+
+            match compiler_thread.join() {
+                Ok(result) => result?,
+                Err(e) => std::panic::resume_unwind(e),
+            }
         }
         Commands::Clean { path } => {
             clean_command(&path)?;
